@@ -22,10 +22,11 @@ PROPS = {
             'shape-bounded: __eq__/__hash__ on all shape pairs incl. '
             'coercions; native: pickle, filter_nodes'),
     'C11': ('contracts.c11', 'exploration',
-            'unbounded: substitute with structural keys against the '
-            'reference substitution, introduce_variables on lists of any '
-            'length; shape-bounded / native: identity keys, identity of '
-            'untouched subtrees; apply_simp wiring symbolic'),
+            'unbounded: substitute (structural keys against the reference '
+            'substitution; identity keys by per-node contributions and '
+            'per-level assembly; identity of untouched nodes), '
+            'introduce_variables on lists of any length; shape-bounded / '
+            'native as cross-check; apply_simp wiring symbolic'),
     'C13': ('contracts.c13', 'exploration',
             'call sites proved; reduplicate unbounded for structure/tokens '
             'and the local id rules; global distinctness of ids on sharing '
